@@ -521,12 +521,45 @@ fn next_serial() -> u64 {
   SERIAL.fetch_add(1, std::sync::atomic::Ordering::SeqCst)
 }
 
-/// Scratch directory of this simulator build (under the simulator's target directory, not /tmp).
+/// Scratch directory for transient files of a run (directories the simulated service restarts from, plan
+/// files of isolated executions): memory backed when /dev/shm is there, else under the simulator's target
+/// directory. Nothing in it outlives the command that wrote it.
 pub fn scratch_dir() -> PathBuf {
-  let base = std::env::var("VERIF_SIM").map(PathBuf::from).unwrap_or_else(|_| PathBuf::from("/verif/sim"));
-  let dir = base.join("target").join("scratch");
-  let _ = std::fs::create_dir_all(&dir);
-  dir
+  static DIR: std::sync::OnceLock<PathBuf> = std::sync::OnceLock::new();
+  DIR
+    .get_or_init(|| {
+      let shm = PathBuf::from("/dev/shm").join(format!("dmnsim-scratch-{}", unsafe { libc::getuid() }));
+      if std::fs::create_dir_all(&shm).is_ok() && std::fs::write(shm.join(".probe"), b"x").is_ok() {
+        let _ = std::fs::remove_file(shm.join(".probe"));
+        return shm;
+      }
+      let base = std::env::var("VERIF_SIM").map(PathBuf::from).unwrap_or_else(|_| PathBuf::from("/verif/sim"));
+      let dir = base.join("target").join("scratch");
+      let _ = std::fs::create_dir_all(&dir);
+      dir
+    })
+    .clone()
+}
+
+/// Removes scratch entries left behind by processes that no longer exist (children that died mid-run).
+pub fn sweep_scratch() {
+  if let Ok(rd) = std::fs::read_dir(scratch_dir()) {
+    for e in rd.filter_map(|e| e.ok()) {
+      let name = e.file_name().to_string_lossy().to_string();
+      // names are <kind>-<pid>[-<serial>...]
+      let pid = name.split('-').nth(1).and_then(|p| p.parse::<u32>().ok());
+      if let Some(pid) = pid {
+        if !std::path::Path::new(&format!("/proc/{}", pid)).exists() {
+          let p = e.path();
+          if p.is_dir() {
+            let _ = std::fs::remove_dir_all(&p);
+          } else {
+            let _ = std::fs::remove_file(&p);
+          }
+        }
+      }
+    }
+  }
 }
 
 pub fn verif_dir() -> PathBuf {
@@ -849,6 +882,7 @@ pub fn run_check(sim: &'static dyn Sim, opt: &BatchOptions) -> i32 {
       }
     }
   }
+  sweep_scratch();
   let wall = summary.wall.as_secs_f64();
   println!(
     "{} {}: {} runs in {:.1}s ({:.0} runs/hour), {} distinct non-trivial, {} violating run(s) in {} signature(s), {} new, {} known",
